@@ -513,6 +513,8 @@ pub struct Driver {
     /// when set, HTTP requests go to an external server (the real executable) instead of the
     /// in-process service
     pub ext: Option<Box<dyn FnMut(&HttpReq) -> HttpResp + Send>>,
+    /// bodies in the exchange log are cut to this many bytes (C14 compares bodies: no cut)
+    pub log_body_limit: usize,
     /// every raw HTTP exchange, if wanted (C14/C20)
     pub http_log: Option<Vec<(HttpReq, HttpResp)>>,
     pub reopens: u32,
@@ -554,6 +556,7 @@ impl Driver {
             content_length: false,
             chunker: None,
             ext: None,
+            log_body_limit: 4096,
             http_log: None,
             reopens: 0,
         };
@@ -621,12 +624,12 @@ impl Driver {
         if let Some(log) = &mut self.http_log {
             let mut rq = r;
             // keep logs small
-            if rq.chunks.iter().map(|c| c.len()).sum::<usize>() > 4096 {
+            if rq.chunks.iter().map(|c| c.len()).sum::<usize>() > self.log_body_limit {
                 rq.chunks = vec![];
             }
             let mut rs = resp.clone();
-            if rs.body.len() > 4096 {
-                rs.body.truncate(4096);
+            if rs.body.len() > self.log_body_limit {
+                rs.body.truncate(self.log_body_limit);
             }
             log.push((rq, rs));
         }
